@@ -193,7 +193,10 @@ class HistoryOb(Obligation):
             real_ok = not any(x in g for g in real) if conc["hist"][-1][0] == "rename" and conc["hist"][-1][1] != conc["hist"][-1][2] else True
         else:
             real_ok = real == tuple(sorted(set(x)) for x in conc["want"])
-        return {"real_ok": real_ok, "lifted_matches": real == lifted, "detail": {"real": real, "want": conc["want"]}}
+        # outside the RENAME precondition only "the old name is gone" is specified; there the SQL-level graph (which also
+        # carries column nodes) and the holder-level history may legitimately differ in the other roles
+        lm = (real == lifted) if conc["want"] is not None else (real_ok == verdict_ok)
+        return {"real_ok": real_ok, "lifted_matches": lm, "detail": {"real": real, "want": conc["want"]}}
 
 
 def render_sql(hist):
